@@ -187,6 +187,17 @@ func (e *enc) calleeEnv(st, old *State, fn *ssa.Function, ext *FuncContract, c *
 			}
 		}
 	}
+	// the callee's ghost definitions are expressions over its entry state
+	if ext != nil {
+		for _, g := range ext.ghosts {
+			func() {
+				defer func() { recover() }()
+				env2 := *env
+				env2.st = old
+				env.bound[g.name] = e.evalSpec(g.expr, &env2)
+			}()
+		}
+	}
 	return env
 }
 
@@ -196,8 +207,7 @@ func (e *enc) call(st *State, c *ssa.CallCommon, ins ssa.Instruction, pos token.
 	}
 	e.syncPoint(st, "call")
 	short := e.calleeShort(c)
-	e.callOcc[short]++
-	site := fmt.Sprintf("%s#%d", short, e.callOcc[short])
+	site := fmt.Sprintf("%s#%d", short, e.siteOrdinal(ins, short))
 
 	var fn *ssa.Function
 	var mc *ssa.MakeClosure
@@ -270,6 +280,15 @@ func (e *enc) call(st *State, c *ssa.CallCommon, ins ssa.Instruction, pos token.
 	e.p.callMods(ms, c)
 	lm := &localMods{cells: map[*ssa.Alloc]bool{}, allocs: map[*ssa.Alloc]bool{}}
 	e.callLocalMods(c, lm)
+	if e.c != nil {
+		for _, cc := range e.c.calls[site] {
+			if cc.kind == "pure" {
+				ms = newModSet()
+				lm = &localMods{cells: map[*ssa.Alloc]bool{}, allocs: map[*ssa.Alloc]bool{}}
+				e.note("assumed at call site " + site + ": the call has no effect on memory or stores")
+			}
+		}
+	}
 	if mode == "defer" {
 		// handled by runDefers (which calls us with mode "call")
 	}
@@ -303,7 +322,10 @@ func (e *enc) call(st *State, c *ssa.CallCommon, ins ssa.Instruction, pos token.
 	if contract != nil {
 		cenv := e.calleeEnv(st, pre, fn, contract, c, mc, args, results)
 		for _, en := range contract.ensures {
-			e.assume(e.evalBool(en.expr, cenv, "postcondition of "+short))
+			// postconditions that mention the callee's internal ghost bindings are not exported
+			if g, ok := e.tryEvalBool(en.expr, cenv, "postcondition of "+short); ok {
+				e.assume(g)
+			}
 		}
 		for _, en := range contract.postAssumed {
 			e.assume(e.evalBool(en.expr, cenv, "assumed postcondition of "+short))
@@ -362,10 +384,10 @@ func (e *enc) pureCallTerms(st *State, c *ssa.CallCommon, fn *ssa.Function, args
 		name = "pure_" + sanitize(e.p.qname(fn))
 		hs.merge(e.p.mods[e.p.unwrapSynthetic(fn)])
 	}
-	return e.pureTerms(st, name, c.Signature(), all, hs.heapArgs())
+	return e.pureTerms(st, name, c.Signature(), all, hs.footprints())
 }
 
-func (e *enc) pureTerms(st *State, name string, sig *types.Signature, args []ssa.Value, heapArgs []string) []string {
+func (e *enc) pureTerms(st *State, name string, sig *types.Signature, args []ssa.Value, heapArgs []footprint) []string {
 	var asorts, aterms []string
 	for _, a := range args {
 		ts := e.valN(a)
@@ -378,9 +400,10 @@ func (e *enc) pureTerms(st *State, name string, sig *types.Signature, args []ssa
 		asorts = append(asorts, sortOf(a.Type()))
 		aterms = append(aterms, ts[0])
 	}
-	for _, s := range heapArgs {
-		asorts = append(asorts, "(Array Ref "+s+")")
-		aterms = append(aterms, e.heapNamed(st, s))
+	for _, fp := range heapArgs {
+		t, s := e.heapArgTerm(st, fp)
+		asorts = append(asorts, s)
+		aterms = append(aterms, t)
 	}
 	var out []string
 	for j := 0; j < sig.Results().Len(); j++ {
@@ -617,7 +640,7 @@ func (e *enc) appendBuiltin(st *State, c *ssa.CallCommon) string {
 		// reallocated: the new array holds the old elements followed by the appended ones
 		e.assert(fmt.Sprintf("(=> (not %s) (forall ((r Ref)) (! (= (select %s r) (ite (and ((_ is elem) r) (= (ebase r) %s) (<= 0 (eidx r)) (< (eidx r) %s)) (ite (< (eidx r) (slen %s)) (select %s (elem (sarr %s) (+ (soff %s) (eidx r)))) %s) (select %s r))) :pattern ((select %s r)))))",
 			fits, nw, narr, n, s, old, s, s, srcAt(fmt.Sprintf("(- (eidx r) (slen %s))", s)), old, nw))
-		st.cells[heapCell(es)] = nw
+		e.setHeap(st, es, old, nw, heapUpd{elems: true})
 		// ground instances for the first and last appended cell (consequences of the two axioms
 		// above; they give quantified specifications a term to trigger on)
 		e.assert(fmt.Sprintf("(=> (> %s 0) (= (select %s (elem (sarr %s) (+ (soff %s) (slen %s)))) %s))", k, nw, r, r, s, srcAt("0")))
@@ -652,13 +675,96 @@ func (e *enc) copyBuiltin(st *State, c *ssa.CallCommon) string {
 		}
 		e.assert(fmt.Sprintf("(forall ((r Ref)) (! (= (select %s r) (ite (and ((_ is elem) r) (= (ebase r) (sarr %s)) (<= (soff %s) (eidx r)) (< (eidx r) (+ (soff %s) %s))) %s (select %s r))) :pattern ((select %s r))))",
 			nw, dst, dst, dst, n, srcVal, old, nw))
-		st.cells[heapCell(es)] = nw
+		e.setHeap(st, es, old, nw, heapUpd{elems: true})
 	} else {
 		ms := newModSet()
 		typeLeaves(sl.Elem(), ms.fields, ms.elems)
 		e.havoc(st, ms, "cp")
 	}
 	return n
+}
+
+// siteOrdinal numbers the call sites of one callee name in SOURCE order (stable under
+// reordering of basic blocks by the SSA builder).
+func (e *enc) siteOrdinal(ins ssa.Instruction, short string) int {
+	if e.siteOrd == nil {
+		e.siteOrd = map[ssa.Instruction]int{}
+		by := map[string][]ssa.Instruction{}
+		for _, b := range e.fn.Blocks {
+			for _, in := range b.Instrs {
+				var cc *ssa.CallCommon
+				switch x := in.(type) {
+				case *ssa.Call:
+					cc = &x.Call
+				case *ssa.Defer:
+					cc = &x.Call
+				case *ssa.Go:
+					cc = &x.Call
+				}
+				if cc == nil {
+					continue
+				}
+				if _, isB := stripVal(cc.Value).(*ssa.Builtin); isB {
+					continue
+				}
+				n := e.calleeShort(cc)
+				by[n] = append(by[n], in)
+			}
+		}
+		for _, list := range by {
+			sort.SliceStable(list, func(i, j int) bool {
+				pi, pj := list[i].Pos(), list[j].Pos()
+				if pi != pj {
+					return pi < pj
+				}
+				if list[i].Block().Index != list[j].Block().Index {
+					return list[i].Block().Index < list[j].Block().Index
+				}
+				return false
+			})
+			for i, in := range list {
+				e.siteOrd[in] = i + 1
+			}
+		}
+	}
+	if n, ok := e.siteOrd[ins]; ok {
+		return n
+	}
+	e.callOcc[short]++
+	return 1000 + e.callOcc[short]
+}
+
+// sendOrdinal numbers the sends on one channel expression in source order.
+func (e *enc) sendOrdinal(ins *ssa.Send, name string) int {
+	var list []*ssa.Send
+	for _, b := range e.fn.Blocks {
+		for _, in := range b.Instrs {
+			if s, ok := in.(*ssa.Send); ok && e.valText(s.Chan) == name {
+				list = append(list, s)
+			}
+		}
+	}
+	sort.SliceStable(list, func(i, j int) bool { return list[i].Pos() < list[j].Pos() })
+	for i, s := range list {
+		if s == ins {
+			return i + 1
+		}
+	}
+	return 0
+}
+
+// tryEvalBool evaluates a clause; ok=false when it refers to identifiers unknown in this environment.
+func (e *enc) tryEvalBool(x SExpr, env *Env, what string) (res string, ok bool) {
+	defer func() {
+		if r := recover(); r != nil {
+			if s, isS := r.(string); isS && strings.Contains(s, "unknown identifier") {
+				res, ok = "", false
+				return
+			}
+			panic(r)
+		}
+	}()
+	return e.evalBool(x, env, what), true
 }
 
 // sliceArr extracts the backing-array term of a syntactic (mkslice arr off len cap) term.
